@@ -72,6 +72,17 @@ class Note(NamedTuple):
         # bool(...) wrapper to satisfy mypy
         return bool(self._comparable() < other._comparable())
 
+    # NamedTuple inherits tuple's <=, > and >=, which total_ordering won't
+    # override, so define them explicitly in terms of the note's position
+    def __le__(self, other) -> bool:
+        return bool(self._comparable() <= other._comparable())
+
+    def __gt__(self, other) -> bool:
+        return bool(self._comparable() > other._comparable())
+
+    def __ge__(self, other) -> bool:
+        return bool(self._comparable() >= other._comparable())
+
     def __str__(self):
         """
         Returns the note string as it would appear in note data.
